@@ -1,11 +1,282 @@
-(* C07/Properties.v -- the property theorems of C07 (being filled in). *)
-From Coq Require Import NArith List Bool.
-From Morfuse Require Import C07.Model C07.Spec.
+(* C07/Properties.v -- the property theorems of C07, and nothing else.
+   Every theorem is closed by [exact <lemma>] and followed by Print Assumptions. *)
+From Coq Require Import NArith List Bool Sorted.
+From Morfuse Require Import Base.Arr C07.Model C07.Spec C07.ProofsLib C07.ProofsTimer C07.ProofsPrim
+  C07.ProofsSim C07.Proofs C07.ProofsSpec C07.ProofsDead.
 Import ListNotations.
 Local Open Scope N_scope.
 
+(* ------------------------------------------------------------------ refinement *)
+
+(* For EVERY history of thread starts (any program of println / wait / waittill / waittill_any
+   / notify / endon / delete / spawn / thread / waitthread / end, nested to any depth), clock
+   advances and Executes: as long as the specification neither runs out of fuel nor meets a
+   cancelled registration ([quiet]: every observation exists and has stale = false), the
+   code-level engine - the mirrored tables m_NotifyList / m_WaitForList walked from the last
+   element to the first, UnregisterTargets / CancelWaitingSources detaching before resuming,
+   the timer with its backward scan and dirty flag - observes exactly what the specification
+   (a set of registrations with sequence numbers, a due-time bag) observes: the same prints
+   in the same order, idle, script and thread counts, RegisterSize of every object and name -
+   up to one thing: the result of a waitthread whose callee was killed, which the model (like
+   the engine) shows as an unresolved pointer and the specification as NIL ([clean_obs]).
+   That the fuel of the interpreter suffices is part of [quiet], not proved. *)
+Theorem C07_engine_refines_the_registration_set_where_no_cancelled_registration_is_met :
+  forall ops : list op,
+    Forall quiet (spec_run ops) -> map (option_map clean_obs) (run ops) = spec_run ops.
+Proof. exact run_refines_spec_where_quiet. Qed.
+Print Assumptions C07_engine_refines_the_registration_set_where_no_cancelled_registration_is_met.
+
+(* ... and literally the same observations when no such result is printed *)
+Theorem C07_engine_equals_the_specification_where_quiet_and_no_unresolved_result_is_printed :
+  forall ops : list op,
+    Forall quiet (spec_run ops) -> Forall no_ptr (run ops) -> run ops = spec_run ops.
+Proof. exact run_eq_spec_where_quiet. Qed.
+Print Assumptions C07_engine_equals_the_specification_where_quiet_and_no_unresolved_result_is_printed.
+
+(* The unconditional statement `forall ops, run ops = spec_run ops` is FALSE of the faithful
+   model: the two recorded findings. *)
+Theorem C07_run_refines_spec_refuted_by_stale_wake : exists ops, run ops <> spec_run ops.
+Proof. exact run_refines_spec_refuted_by_stale_wake. Qed.
+Print Assumptions C07_run_refines_spec_refuted_by_stale_wake.
+
+Theorem C07_run_refines_spec_refuted_by_unresolved_result : exists ops, run ops <> spec_run ops.
+Proof. exact run_refines_spec_refuted_by_unresolved_result. Qed.
+Print Assumptions C07_run_refines_spec_refuted_by_unresolved_result.
+
+(* The interpreter step by step: from related tables every task of the interpreter (one task per
+   C++ function, woken threads running nested) ends in related tables and the SAME engine state,
+   unless the specification raised its flag. *)
+Theorem C07_every_task_keeps_the_simulation :
+  forall f k x1 x2 s,
+    R x1 x2 -> rel spec_prims R (go model_prims f k x1 s) (go spec_prims f k x2 s).
+Proof. exact sim_ms. Qed.
+Print Assumptions C07_every_task_keeps_the_simulation.
+
+(* `src notify name` on the tables: UnregisterTargets walks m_NotifyList[name] from the last
+   listener to the first and removes src from each listener's m_WaitForList[name]; the
+   detached listeners, resumed from the last to the first of that list, are the holders of
+   the registrations on (src, name) in the order of their latest registration *)
+Theorem C07_unregister_detaches_what_the_specification_detaches :
+  forall src n x1 x2,
+    R x1 x2 ->
+    sflag (fst (a_detach src n x2)) = (sflag x2 || existsb rz (filter (on_src src n) (regs x2))) /\
+    (existsb rz (filter (on_src src n) (regs x2)) = false ->
+     R (fst (m_detach src n x1)) (fst (a_detach src n x2)) /\
+     snd (m_detach src n x1) = snd (a_detach src n x2)).
+Proof. exact detach_R. Qed.
+Print Assumptions C07_unregister_detaches_what_the_specification_detaches.
+
+Theorem C07_unregister_all_detaches_what_the_specification_detaches :
+  forall src x1 x2,
+    R x1 x2 ->
+    sflag (fst (a_detach_all src x2)) = (sflag x2 || existsb rz (filter (fun r => lid_eqb src (rsrc r)) (regs x2))) /\
+    (existsb rz (filter (fun r => lid_eqb src (rsrc r)) (regs x2)) = false ->
+     R (fst (m_detach_all src x1)) (fst (a_detach_all src x2)) /\
+     snd (m_detach_all src x1) = snd (a_detach_all src x2)).
+Proof. exact detach_all_R. Qed.
+Print Assumptions C07_unregister_all_detaches_what_the_specification_detaches.
+
+Theorem C07_register_keeps_the_tables_mirrored :
+  forall src n w x1 x2, R x1 x2 -> R (m_reg src n w x1) (a_reg src n w x2).
+Proof. exact reg_R. Qed.
+Print Assumptions C07_register_keeps_the_tables_mirrored.
+
+Theorem C07_cancel_waiting_all_withdraws_what_the_specification_withdraws :
+  forall w x1 x2,
+    R x1 x2 ->
+    R (fst (m_cancel_rest w x1)) (fst (a_cancel_rest w x2)) /\
+    snd (m_cancel_rest w x1) = snd (a_cancel_rest w x2).
+Proof. exact cancel_rest_R. Qed.
+Print Assumptions C07_cancel_waiting_all_withdraws_what_the_specification_withdraws.
+
+Theorem C07_get_next_element_takes_the_minimal_due_wait :
+  forall x1 x2,
+    R x1 x2 -> R (fst (m_tpop x1)) (fst (a_tpop x2)) /\ snd (m_tpop x1) = snd (a_tpop x2).
+Proof. exact tpop_R. Qed.
+Print Assumptions C07_get_next_element_takes_the_minimal_due_wait.
+
+(* ------------------------------------------------------------------ the clauses of the property, on the specification *)
+
+(* no_wake_without_notify / every_registered_waiter_wakes_once: `src notify n` resumes exactly
+   the threads that hold a live registration on (src, n) at that moment (each registered
+   earlier: its sequence number is below the next one), each once; afterwards nobody is
+   registered on (src, n), the other registrations of the resumed threads are cancelled
+   (waittill_any: the first notify wins) and nobody else's registration is touched *)
+Theorem C07_notify_resumes_exactly_the_registered_waiters_each_once :
+  forall src n x,
+    regs_ok x ->
+    let ws := snd (a_detach src n x) in
+    let x' := fst (a_detach src n x) in
+    NoDup ws /\
+    (forall l, In l ws <-> exists r, In r (regs x) /\ l = LThr (rw r) /\ live_on src n r /\ rseq r < nseq x) /\
+    (forall r, In r (regs x') -> ~ (rsrc r = src /\ rn r = n)) /\
+    (forall r, In r (regs x') -> In (LThr (rw r)) ws -> rz r = true) /\
+    (forall r, In r (regs x) -> ~ (rsrc r = src /\ rn r = n) -> ~ In (LThr (rw r)) ws -> In r (regs x')).
+Proof. exact notify_resumes_exactly_the_registered. Qed.
+Print Assumptions C07_notify_resumes_exactly_the_registered_waiters_each_once.
+
+(* the order: threads that registered once are resumed in registration order ... *)
+Theorem C07_waiters_are_resumed_in_registration_order :
+  forall l : list lid, NoDup l -> by_last l = l.
+Proof. exact resume_order_is_registration_order. Qed.
+Print Assumptions C07_waiters_are_resumed_in_registration_order.
+
+(* ... and in general a thread takes the place of its latest registration *)
+Theorem C07_a_later_registration_moves_the_thread_to_the_end :
+  forall (l : list lid) (a : lid), by_last (l ++ [a]) = lremove a (by_last l) ++ [a].
+Proof. exact by_last_snoc. Qed.
+Print Assumptions C07_a_later_registration_moves_the_thread_to_the_end.
+
+(* notify_without_waiters_is_noop *)
+Theorem C07_notify_without_waiters_is_noop :
+  forall src n x, filter (on_src src n) (regs x) = [] -> a_detach src n x = (x, []).
+Proof. exact notify_without_waiters_is_noop. Qed.
+Print Assumptions C07_notify_without_waiters_is_noop.
+
+(* delete_destroys_waiters: removing src hands exactly the holders of live registrations on src
+   to destruction and leaves no registration on src; the destruction loop destroys every one
+   of them; a destroyed thread stays destroyed, does not run and is not woken *)
+Theorem C07_removal_hands_exactly_the_waiters_to_destruction :
+  forall src x,
+    let ws := snd (a_detach_all src x) in
+    let x' := fst (a_detach_all src x) in
+    (forall t, In (LThr t) ws <-> exists r, In r (regs x) /\ rw r = t /\ rsrc r = src /\ rz r = false) /\
+    (forall r, In r (regs x') -> rsrc r <> src) /\
+    (forall r, In r (regs x) -> rsrc r <> src -> In r (regs x')).
+Proof. exact removal_destroys_exactly_the_waiters. Qed.
+Print Assumptions C07_removal_hands_exactly_the_waiters_to_destruction.
+
+Theorem C07_the_removal_loop_destroys_every_waiter :
+  forall (T : Type) (P : prims T) l f x s x' s',
+    WF s -> go P f (KDestroyList l) x s = Some (x', s') ->
+    (forall w, In (LThr w) l -> w < ntid s) ->
+    WF s' /\ ntid s <= ntid s' /\ forall w, In (LThr w) l -> alive (th s' w) = false.
+Proof. exact (@removal_loop_destroys_every_waiter). Qed.
+Print Assumptions C07_the_removal_loop_destroys_every_waiter.
+
+(* endon_destroys: the threads of the end list of the notified event are all destroyed *)
+Theorem C07_the_endon_loop_destroys_every_thread_of_the_end_list :
+  forall (T : Type) (P : prims T) l f x s x' s',
+    WF s -> go P f (KKillList l) x s = Some (x', s') ->
+    (forall w, In (LThr w) l -> w < ntid s) ->
+    WF s' /\ ntid s <= ntid s' /\ forall w, In (LThr w) l -> alive (th s' w) = false.
+Proof. exact (@endon_loop_destroys_every_thread). Qed.
+Print Assumptions C07_the_endon_loop_destroys_every_thread_of_the_end_list.
+
+Theorem C07_deleting_a_thread_destroys_it :
+  forall (T : Type) (P : prims T) f t x s x' s',
+    WF s -> go P f (KKill t) x s = Some (x', s') -> WF s' /\ ntid s <= ntid s' /\ alive (th s' t) = false.
+Proof. exact (@delete_destroys). Qed.
+Print Assumptions C07_deleting_a_thread_destroys_it.
+
+Theorem C07_a_destroyed_thread_stays_destroyed :
+  forall (T : Type) (P : prims T) f k x s x' s' t,
+    WF s -> go P f k x s = Some (x', s') -> t < ntid s -> alive (th s t) = false ->
+    WF s' /\ ntid s <= ntid s' /\ alive (th s' t) = false.
+Proof. exact (@destroyed_stays_destroyed). Qed.
+Print Assumptions C07_a_destroyed_thread_stays_destroyed.
+
+Theorem C07_a_destroyed_thread_does_not_run :
+  forall (T : Type) (P : prims T) f w x s,
+    alive (th s w) = false -> go P (S f) (KRunLoop w) x s = Some (x, s).
+Proof. exact (@destroyed_thread_does_not_run). Qed.
+Print Assumptions C07_a_destroyed_thread_does_not_run.
+
+Theorem C07_a_destroyed_thread_is_not_woken :
+  forall (T : Type) (P : prims T) f w l n x s,
+    alive (th s w) = false ->
+    go P (S f) (KWakeList (LThr w :: l) n) x s = go P f (KWakeList l n) x s.
+Proof. exact (@destroyed_thread_is_not_woken). Qed.
+Print Assumptions C07_a_destroyed_thread_is_not_woken.
+
+(* a thread that proceeds or dies withdraws all its registrations and nobody else's *)
+Theorem C07_a_proceeding_thread_withdraws_all_its_registrations :
+  forall w x,
+    let x' := fst (a_cancel_rest w (fst (a_cancel0 w x))) in
+    (forall r, In r (regs x') -> rw r <> w) /\
+    (forall r, In r (regs x) -> rw r <> w -> In r (regs x')).
+Proof. exact proceeding_withdraws_all_registrations. Qed.
+Print Assumptions C07_a_proceeding_thread_withdraws_all_its_registrations.
+
+(* registration sequence numbers: fresh, increasing along the set, kept by every operation *)
+Theorem C07_a_registration_gets_a_fresh_sequence_number :
+  forall src n w x,
+    regs_ok x ->
+    regs (a_reg src n w x) = regs x ++ [mkReg (nseq x) w src n false] /\
+    (forall r, In r (regs x) -> rseq r < nseq x) /\
+    a_waiting w (a_reg src n w x) = true.
+Proof. exact registration_gets_a_fresh_number. Qed.
+Print Assumptions C07_a_registration_gets_a_fresh_sequence_number.
+
+Theorem C07_sequence_numbers_stay_ordered :
+  regs_ok ast_init /\
+  (forall src n w x, regs_ok x -> regs_ok (a_reg src n w x)) /\
+  (forall src n x, regs_ok x -> regs_ok (fst (a_detach src n x))) /\
+  (forall src x, regs_ok x -> regs_ok (fst (a_detach_all src x))) /\
+  (forall w x, regs_ok x -> regs_ok (fst (a_cancel0 w x))) /\
+  (forall w x, regs_ok x -> regs_ok (fst (a_cancel_rest w x))).
+Proof.
+  exact (conj regs_ok_init (conj regs_ok_reg (conj regs_ok_detach (conj regs_ok_detach_all
+        (conj regs_ok_cancel0 regs_ok_cancel_rest))))).
+Qed.
+Print Assumptions C07_sequence_numbers_stay_ordered.
+
+(* ------------------------------------------------------------------ non-vacuity *)
+Definition show (l : list (option obs)) :=
+  map (option_map (fun o => (prints o, idle o, nthreads o, sizes o, stale o))) l.
+
+(* Threads 1, 2 wait for (o0, a), thread 3 for any of a, b on o0 and then for (o1, b), thread 4
+   dies on (o0, c).  `notify a` resumes 1, 2, 3 in registration order, each nested inside the
+   notifier's statement (3 then blocks on o1); `notify b` on o0 finds nobody (3's second
+   registration was cancelled when it proceeded); waitthread: the caller 0 proceeds in the frame
+   in which callee 5 ends and gets its result 7; `delete o1` destroys thread 3, which never
+   prints 7; `notify c` destroys thread 4 before its second wait ends (it never prints 10).
+   Model and specification agree (the flag stays down). *)
 Example C07_history_example :
-  map (option_map (fun o => (prints o, idle o)))
-      (run [ OStart [ISpawn 0; IThread [IPrint 1; IWaitTill 0 NA; IPrint 2]; IPrint 3; INotify 0 NA; IPrint 4] ]) =
-  [ Some ([(1, PM 1); (0, PM 3); (1, PM 2); (0, PM 4)], true) ].
-Proof. vm_compute. reflexivity. Qed.
+  let ops :=
+    [ OStart [ ISpawn 0; ISpawn 1;
+               IThread [IPrint 1; IWaitTill 0 NA; IPrint 2];
+               IThread [IPrint 3; IWaitTill 0 NA; IPrint 4];
+               IThread [IPrint 5; IWaitTillAny 0 [NA; NB]; IPrint 6; IWaitTill 1 NB; IPrint 7];
+               IThread [IEndOn 0 NC; IPrint 8; IWait 1; IPrint 9; IWait 1; IPrint 10];
+               IPrint 11; INotify 0 NA; IPrint 12; INotify 0 NB; IPrint 13;
+               IWaitThread [IPrint 14; IWait 1; IPrint 15; IEnd (Some 7)];
+               IPrint 16; IPrintR; IDelete 1; IPrint 17; INotify 0 NC; IPrint 18 ];
+      OExecute; OAdvance 1; OExecute; OAdvance 1; OExecute ] in
+  show (run ops) =
+  [ Some ([(1, PM 1); (2, PM 3); (3, PM 5); (4, PM 8); (0, PM 11); (1, PM 2); (2, PM 4); (3, PM 6);
+           (0, PM 12); (0, PM 13); (5, PM 14)], false, 4%nat, [0; 0; 0; 0; 1; 0; 0; 0; 0]%nat, false);
+    Some ([], false, 4%nat, [0; 0; 0; 0; 1; 0; 0; 0; 0]%nat, false);
+    Some ([], false, 4%nat, [0; 0; 0; 0; 1; 0; 0; 0; 0]%nat, false);
+    Some ([(4, PM 9); (5, PM 15); (0, PM 16); (0, PR (RInt 7)); (0, PM 17); (0, PM 18)],
+          true, 0%nat, [0; 0; 0; 0; 0; 0; 0; 0; 0]%nat, false);
+    Some ([], true, 0%nat, [0; 0; 0; 0; 0; 0; 0; 0; 0]%nat, false);
+    Some ([], true, 0%nat, [0; 0; 0; 0; 0; 0; 0; 0; 0]%nat, false) ]
+  /\ run ops = spec_run ops.
+Proof. vm_compute. split; reflexivity. Qed.
+
+(* The stale wake-up (finding C07-stale-wake): model (= engine) prints 4 although (o0, c) was
+   never notified; in the specification thread 2 stays blocked on (o0, c) and the flag is up. *)
+Example C07_stale_wake_example :
+  show (run stale_witness) =
+    [ Some ([(1, PM 1); (2, PM 3); (1, PM 2); (2, PM 4); (0, PM 5)], true, 0%nat,
+            [0; 0; 0; 0; 0; 0; 0; 0; 0]%nat, false) ] /\
+  show (spec_run stale_witness) =
+    [ Some ([(1, PM 1); (1, PM 2); (2, PM 3); (0, PM 5)], false, 1%nat,
+            [0; 0; 1; 0; 0; 0; 0; 0; 0]%nat, true) ].
+Proof. vm_compute. split; reflexivity. Qed.
+
+(* The unresolved result (finding C07-unresolved-result) *)
+Example C07_unresolved_result_example :
+  map (option_map prints) (run ptr_witness) = [ Some []; Some [(0, PR RPtr)]; Some [] ] /\
+  map (option_map prints) (spec_run ptr_witness) = [ Some []; Some [(0, PR RNil)]; Some [] ].
+Proof. vm_compute. split; reflexivity. Qed.
+
+(* a notify of the specification: registrations 0..3 on (o0, a) by threads 5, 6, 5 (again) and
+   on (o0, b) by thread 6; `o0 notify a` resumes 6 then 5 (5 registered again later), cancels
+   6's registration on b, and hands out nothing else *)
+Example C07_notify_example :
+  let x := a_reg (LO 0) (NS NB) 6 (a_reg (LO 0) (NS NA) 5 (a_reg (LO 0) (NS NA) 6 (a_reg (LO 0) (NS NA) 5 ast_init))) in
+  snd (a_detach (LO 0) (NS NA) x) = [LThr 6; LThr 5] /\
+  map (fun r => (rseq r, rw r, rz r)) (regs (fst (a_detach (LO 0) (NS NA) x))) = [(3, 6, true)].
+Proof. vm_compute. split; reflexivity. Qed.
